@@ -187,6 +187,32 @@ class VerifAccumulateOperation(FloatOperation):
         return FloatDataType(out)
 
 
+class VerifStatefulScaleOperation(FloatOperation):
+    """data * factor + 1000 * (number of calls this INSTANCE has served before)."""
+
+    def __init__(self, *a, **k):
+        super().__init__(*a, **k)
+        self._calls = 0
+
+    def _process_logic(self, data, factor):
+        out = data.data * factor + 1000.0 * self._calls
+        self._calls += 1
+        return FloatDataType(out)
+
+
+class VerifStatefulScaleProbe(FloatProbe):
+    """[data * factor, number of calls this INSTANCE has served before]."""
+
+    def __init__(self, *a, **k):
+        super().__init__(*a, **k)
+        self._calls = 0
+
+    def _process_logic(self, data, factor):
+        out = [data.data * factor, self._calls]
+        self._calls += 1
+        return out
+
+
 # ---- elements that fail on ONE particular step of a sweep, with a chosen exception class ----
 
 RAISE_CLASSES = {"ValueError": ValueError, "StopIteration": StopIteration, "KeyError": KeyError, "RuntimeError": RuntimeError,
